@@ -64,6 +64,10 @@ PropsOK(P, Q) ==
   /\ Ev.obs.wireok                                                            \* C07: every emitted message is valid and re-parses unchanged
   /\ RulePreserved(D, P, Q) /\ PubRuleOK(D, P, Q)                             \* C09
   /\ (Ev.o \in {"assign", "assignfail"} => AssignOnOK(D, P, Q, Ev.v, Ev.e, Ev.x))
+  /\ (Ev.o \in {"assign", "assignfail", "setvalue"} /\ NoVetoOn(Ev.v) /\ NoReadOn(Ev.v) => SwitchOneOK(D, P, Q, Ev.v, Ev.e, Ev.x))
+  /\ (Ev.o = "new" /\ Ev.t # None /\ VecOf(D, Ev.t, Ev.n) # 0 /\ Len(Ev.ch) = 1 /\ KindOK(VecOf(D, Ev.t, Ev.n), Ev.ch)
+        /\ NoVetoOn(VecOf(D, Ev.t, Ev.n)) /\ NoReadOn(VecOf(D, Ev.t, Ev.n))
+      => SwitchOneOK(D, P, Q, VecOf(D, Ev.t, Ev.n), IndexOf(D.vecs[VecOf(D, Ev.t, Ev.n)].elems, Ev.ch[1][1]), Ev.ch[1][2]))
   /\ (Ev.o = "sel" /\ (\A h \in DOMAIN D.hs : D.hs[h].v # Ev.v) => SelectOnOK(D, Q, Ev.v, Range(Ev.names)))
   /\ (Ev.o \in {"new", "get", "tick"} => ~Q.raised)                           \* C12
   /\ (Ev.o = "new" => FrameOK(D, P, Q, Ev.t, Ev.n))                           \* C06 / C12
@@ -135,14 +139,26 @@ PubCurrentObs ==
      (m.v # 0 /\ (m.t = "set" \/ (m.t = "def" /\ D.vecs[m.v].kind # "blob"))) =>
         \A k \in DOMAIN m.els : \A e \in DOMAIN D.vecs[m.v].elems :
            D.vecs[m.v].elems[e] = m.els[k][1] => m.els[k][2] = QO.val[m.v][e]
+\* which properties are enabled is a matter of the operations so far alone: a property is visible iff its own flag (the last
+\* `enabled =` on it, else its declaration) and its group's flag (likewise) are both set; toggling a group does not touch the
+\* properties' own flags
+LastOp(o, key, val, k) == LET I == {i \in 1..k : Tr.ev[i].o = o /\ Tr.ev[i][key] = val} IN IF I = {} THEN 0 ELSE CHOOSE i \in I : \A j \in I : j <= i
+OwnVen(v) == IF LastOp("ven", "v", v, l) = 0 THEN D.ven0[v] ELSE Tr.ev[LastOp("ven", "v", v, l)].b
+GroupOn(g) == IF LastOp("gen", "g", g, l) = 0 THEN D.gen0[g] ELSE Tr.ev[LastOp("gen", "g", g, l)].b
+EnabledOK == \A v \in DOMAIN D.vecs : QO.ven[v] = (OwnVen(v) /\ GroupOn(D.vecs[v].grp))
 ContractOK ==
   /\ Ev.obs.wireok
+  /\ EnabledOK
   /\ (Ev.o \in {"state", "get", "ven", "gen", "reset"} /\ (\A h \in DOMAIN D.hs : D.hs[h].refresh = NoRefresh \/ D.hs[h].coro) => PubCurrentObs)
   /\ (Ev.o = "reset" => QO.pub = <<>> /\ QO.hlog = <<>> /\ QO.vst = PO.vst /\ QO.ven = PO.ven
                          /\ \A v \in DOMAIN PO.val : \A e \in DOMAIN PO.val[v] : (v # Ev.v \/ e # Ev.e) => QO.val[v][e] = PO.val[v][e])
   /\ ReadContractObs
   /\ RulePreserved(D, PO, QO) /\ PubRuleOK(D, PO, QO)
   /\ (Ev.o \in {"assign", "assignfail"} => AssignOnOK(D, PO, QO, Ev.v, Ev.e, Ev.x))
+  /\ (Ev.o \in {"assign", "assignfail", "setvalue"} /\ NoVetoOn(Ev.v) /\ NoReadOn(Ev.v) => SwitchOneOK(D, PO, QO, Ev.v, Ev.e, Ev.x))
+  /\ (Ev.o = "new" /\ Ev.t # None /\ VecOf(D, Ev.t, Ev.n) # 0 /\ Len(Ev.ch) = 1 /\ KindOK(VecOf(D, Ev.t, Ev.n), Ev.ch)
+        /\ NoVetoOn(VecOf(D, Ev.t, Ev.n)) /\ NoReadOn(VecOf(D, Ev.t, Ev.n))
+      => SwitchOneOK(D, PO, QO, VecOf(D, Ev.t, Ev.n), IndexOf(D.vecs[VecOf(D, Ev.t, Ev.n)].elems, Ev.ch[1][1]), Ev.ch[1][2]))
   /\ (Ev.o = "sel" /\ (\A h \in DOMAIN D.hs : D.hs[h].v # Ev.v) => SelectOnOK(D, QO, Ev.v, Range(Ev.names)))
   /\ (Ev.o \in {"new", "get", "tick"} => ~QO.raised)
   /\ (Ev.o = "new" => FrameOK(D, PO, QO, Ev.t, Ev.n))
